@@ -121,7 +121,7 @@ def main() -> int:
             info[j["id"]] = ("random", False, {"handbuilt_compositions", f"order{order}"})
             jobs.append(j)
     # (a) random documents with allOf
-    for i in range(60 if quick else 1500):
+    for i in range(60 if quick else 4000):
         d, feats = docs.random_doc(("C15", seed(), i), n_schemas=r.randint(5, 12), n_ops=0)
         if not any("allOf" in v for v in d["components"]["schemas"].values()):
             continue
